@@ -15,6 +15,7 @@ where to probe, never what to expect.
                        fix <zone> <u1> <u2> ...   -> "U ..." lines for given instants
   --dump DIR [zone ...]   write the tables to DIR/<zone with / -> __>.tbl (inspection only)
   --selftest         cross-check the two classifications (candidate method vs PEP 495 fold)
+  --vdrv quick|thorough [--shard i/n] [--only K]   the same cross-check as a vcheck driver
 
 Table generation happens at check time from the installed tree; no table is
 ever stored in /verif.
@@ -339,6 +340,53 @@ def serve():
         sys.stdout.flush()
 
 
+def vdrv(argv):
+    """the self-check as a driver of its own (vdrv line protocol): case = zone, the two independent
+    classifications of every local probe of its table must agree, and every expected offset must be
+    one of the offsets the file declares"""
+    import json
+    tier, shard, nshard, only = argv[0], 0, 1, -1
+    i = 1
+    while i < len(argv):
+        if argv[i] == '--shard':
+            shard, nshard = map(int, argv[i + 1].split('/'))
+        elif argv[i] == '--only':
+            only = int(argv[i + 1])
+        i += 2
+    names = zone_names()
+    if tier != 'thorough':
+        names = [n for n in QUICK if n in set(names)]
+    evals = nviol = 0
+    sigs = {}
+    for idx, nm in enumerate(names):
+        if (only >= 0 and idx != only) or (only < 0 and idx % nshard != shard):
+            continue
+        z = Zone(nm)
+        declared = set(z.tz['offs'])
+        for ln in conv_table(z):
+            f = ln.split()
+            bad = None
+            if f[0] == 'L':
+                l = int(f[1])
+                pre, pep = z.preimage(l), z.fold_check(l)
+                if pre != pep:
+                    bad = ('oracle-selfcheck/classification', 'zone %s local %s: candidate method %r, PEP 495 folds %r' % (nm, civil(l), pre, pep))
+            elif f[0] == 'U' and int(f[2]) not in declared:
+                bad = ('oracle-selfcheck/undeclared-offset', 'zone %s utc %s: zoneinfo offset %s is not a ttinfo of the file' % (nm, f[1], f[2]))
+            else:
+                continue
+            evals += 1
+            if bad:
+                nviol += 1
+                sigs[bad[0]] = sigs.get(bad[0], 0) + 1
+                if sigs[bad[0]] <= 3 or only >= 0:
+                    print(json.dumps({'t': 'viol', 'sig': bad[0], 'idx': idx, 'case': 'zone ' + nm, 'detail': bad[1]}))
+        if idx % 40 == 0 and only < 0:
+            print(json.dumps({'t': 'sample', 'idx': idx, 'case': 'reference self-check of zone %s: %d transitions probed' % (nm, len(z.trs))}))
+    print(json.dumps({'t': 'summary', 'shard': shard, 'nshard': nshard, 'evals': evals, 'nontrivial': 0, 'nviol': nviol,
+                      'capped': False, 'counters': {'oracle_selfcheck_probes': evals}, 'sigs': sigs}))
+
+
 def selftest(names):
     bad = n = 0
     for nm in names:
@@ -374,6 +422,8 @@ def main():
                 f.write('\n'.join(conv_table(z) + ['--- rule'] + rule_table(z)) + '\n')
     elif a[:1] == ['--selftest']:
         sys.exit(selftest(a[1:] or [n for n in QUICK if n in set(zone_names())]))
+    elif a[:1] == ['--vdrv']:
+        vdrv(a[1:])
     elif a[:1] == ['--list']:
         for n in zone_names():
             print(n)
